@@ -14,6 +14,8 @@ M32 = (1 << 32) - 1
 NEVER = 0xffff            # "stop" value: the visitor never returns false
 
 WS = [9, 10, 11, 12, 13, 32]
+# the other white-space code points of unicode.IsSpace, UTF-8 encoded (Model.v: unicode_spaces)
+USPACES = [list(chr(c).encode('utf8')) for c in [0x85, 0xa0, 0x1680] + list(range(0x2000, 0x200b)) + [0x2028, 0x2029, 0x202f, 0x205f, 0x3000]]
 
 
 def le(v, n):
@@ -171,11 +173,11 @@ class C10(flow.Spec):
     rule = ('information blocks laid out by a Python mirror of the Coq encoder (every block is re-checked against the extracted Coq `encode` as part of '
             'the observation) from generated mbinfos: 0-8 tags in random order incl. duplicates and opaque tags of sizes 0-40, memory maps with entry '
             'size 24..48 and 0-12 entries whose types are drawn from {0,1,2,3,4,5,6,0x7fffffff,0xffffffff,random}, indexed/RGB/EGA/other framebuffers, '
-            'ASCII command lines of key=value / bare entries with duplicates, ELF tables of 0-12 sections with shared-suffix names; placed with the last '
+            'command lines of ASCII key=value / bare entries with duplicates separated by ASCII or other Unicode white space, opaque tag types aliasing defined types modulo 2^8/2^16/2^24/2^k, ELF tables of 0-12 sections with shared-suffix names; placed with the last '
             'byte before PROT_NONE memory; the visitor stops after a random number of calls; second stream: the same blocks truncated / with boundary '
             'values written into size, entry-size, count and string-table fields (agreement only); non-trivial = at least one region, section or key reported')
     assumptions = ['memory model: two accessible segments (block incl. the zero bytes of the rest of its first page; string table), every load that is not entirely inside one segment is a Stray; the harness realises exactly this with fixed-address mappings inside two large PROT_NONE reservations and debug.SetPanicOnFault',
-                   'command lines are ASCII without NUL (strings.Fields also splits on Unicode white space); tokens with two or more `=` are outside the well-formed set (the code drops them; agreement-tested)',
+                   'command-line keys/values/flags are ASCII without NUL; the separators are any white space of unicode.IsSpace (ASCII or UTF-8 encoded U+0085, U+00A0, U+1680, U+2000-200A, U+2028/9, U+202F, U+205F, U+3000); non-ASCII bytes inside words and tokens with two or more `=` are outside the well-formed set (agreement-tested; the model follows Go byte for byte: invalid UTF-8 is never white space)',
                    'unaligned loads are allowed (amd64); the ELF tag layout is the one of the Go struct / GRUB (u32 num, u32 entsize, u32 shndx), entry size 64',
                    'blocks are generated by a Python mirror of `encode`; the Coq model recomputes `encode` on the attached mbinfo and the observation carries the comparison flag, so a divergence between the two encoders breaks the correspondence',
                    'findTagByType on a malformed block can loop forever; the harness predicts this with its own bounded walk (same bound as the model fuel) and does not call the decoder then']
@@ -193,7 +195,10 @@ class C10(flow.Spec):
 
     def gen_ws(self, rng, allow_empty=False):
         n = rng.choice([0, 1] if allow_empty else [1, 1, 1, 2, 3])
-        return [rng.choice(WS) for _ in range(n)]
+        out = []
+        for _ in range(n):
+            out += rng.choice(USPACES) if rng.random() < 0.3 else [rng.choice(WS)]
+        return out
 
     def gen_strtab(self, rng, nsec):
         names = [b'', b'.text', b'.rodata', b'.data', b'.bss', b'.shstrtab', b'.symtab', b'.strtab', b'.noptrdata', b'.goredirectstbl', b'x', b'\xc3\xa9\x01\xff']
@@ -267,6 +272,11 @@ class C10(flow.Spec):
                 t = ('elf', 64, sh, secs)
             else:
                 ty = rng.choice([2, 3, 4, 5, 7, 10, 14, 21, 0xffff, M32, rng.randrange(10, 1 << 32)])
+                if rng.random() < 0.45:
+                    # vendor / future tag types that alias the end tag or a decoded tag when only part of the 32-bit type is compared
+                    lowbits = rng.choice([8, 16, 24, 31, rng.randrange(1, 32)])
+                    hi = rng.choice([1, 1, 2, 3, 0x80, 0xff, rng.randrange(1, 1 << (32 - lowbits))]) % (1 << (32 - lowbits)) or 1
+                    ty = (hi << lowbits) | rng.choice([0, 1, 6, 8, 9])
                 if ty in (0, 1, 6, 8, 9):
                     ty = 2
                 t = ('other', ty, [rng.randrange(256) if not safe else rng.choice([0, 1, 2]) for _ in range(rng.choice([0, 0, 1, 4, 7, 8, 9, 12, 20, 40]))])
@@ -369,7 +379,14 @@ class C10(flow.Spec):
                     n = len(payload(t))
                     for _ in range(rng.choice([1, 2, 4])):
                         if n:
-                            put(o + 8 + rng.randrange(n), rng.choice([0, 61, 61, 32, 0xc3, 0xa9, 0xff, 0x80, 65]), 1)
+                            if rng.random() < 0.4:   # (pieces of) Unicode white space, other multi-byte runes, invalid UTF-8
+                                seq = rng.choice(USPACES + [[0xe2, 0x80, 0x8b], [0xe2, 0x80], [0xc2], [0xc2, 0x84], [0xe1, 0x9a, 0x81], [0xe3, 0x80, 0x81], [0xf0, 0x9f, 0x98, 0x80], [0xe2, 0x81, 0xa0]])
+                                at = rng.randrange(n)
+                                for q, bb in enumerate(seq):
+                                    if at + q < n:
+                                        put(o + 8 + at + q, bb, 1)
+                            else:
+                                put(o + 8 + rng.randrange(n), rng.choice([0, 61, 61, 32, 0xc3, 0xa9, 0xff, 0x80, 0x85, 0xa0, 0xc2, 0xe2, 65]), 1)
                 notes.append('cmd')
             else:                      # tag type field
                 if offs:
